@@ -55,7 +55,7 @@ def texts (z : M.Zoned) : String :=
     showW (Serde.DateTimeStr.serialize z)]
 
 def views (z : M.Zoned) : String :=
-  joinSp (([resInt z.month0, resInt z.day0, resInt z.ordinal0, resInt z.quarter] ++ resPair z.year_ce ++
+  joinSp (([resInt z.month0, resInt z.day0, resInt z.ordinal0, resInt z.quarter_v] ++ resPair z.year_ce_v ++
     resPair z.hour12 ++ [resInt z.num_seconds_from_midnight]).map toString)
 
 /-- the wall clock `end + off + δ` seconds as a naive value of the range (with its calendar fields), if it is one -/
